@@ -68,6 +68,10 @@ class LossMix(Mix):
                     if f is not None and f['state'] == 'pending' and it.kind == 'rr':
                         out.append(('C11.pending-failed', 'C11.pending-failed | %s | awaitable-left-hanging' % tag,
                                     'request-response %s awaitable still pending' % it.tag))
+                    if f is not None and f['state'] == 'pending' and it.kind in ('fnf', 'push'):
+                        # the awaitable handed out by fire_and_forget / metadata_push (resolved when the frame has been written)
+                        out.append(('C11.pending-failed', 'C11.pending-failed | %s | %s-awaitable-left-hanging' % (tag, it.kind),
+                                    '%s %s awaitable still pending: its frame was never written and nothing failed it' % (it.kind, it.tag)))
                 else:
                     # 2. responder side: producers cancelled
                     pub = st.get('pubd')
@@ -152,6 +156,14 @@ def mixes():
     return M
 
 
+def slow_sender_mixes():
+    """Every write waits for an explicit release: frames sit in the send queue when the fault strikes."""
+    M = {}
+    M['slow sender: rr c + fnf c + push c'] = [dict(kind='rr', init='c', tag='A', rr_mode='late'), dict(kind='fnf', init='c', tag='B'), dict(kind='push', init='c', tag='C')]
+    M['slow sender: stream s + fnf s + push s'] = [dict(kind='stream', init='s', tag='A', down=2, pub='manual', credit='one'), dict(kind='fnf', init='s', tag='B'), dict(kind='push', init='s', tag='C')]
+    return M
+
+
 def _full(d):
     base = Inter('rr', 'c', 'A').spec()
     base.update(d)
@@ -172,6 +184,11 @@ def make_units(tier):
                     K = 16
                     for k in range(K):
                         units.append({'name': name, 'inters': ins, 'fs': fs, 'kinds': list(kinds), 'cut_points': 'boundaries', 'bound': 2, 'shard': [k, K]})
+    for name, inters in slow_sender_mixes().items():
+        for fs in (None, 64):
+            for kinds in (('eof',), ('rst',), ('wr',), ('close',)):
+                ins = [dict(d, size='F' if fs else 'S') for d in inters]
+                units.append({'name': name, 'inters': ins, 'fs': fs, 'kinds': list(kinds), 'cut_points': 'boundaries', 'bound': 1, 'shard': [0, 1], 'slow_sender': True})
     # the QUIC transport is the other transport class that reports a lost connection to the engine (ConnectionTerminated)
     for name, inters in mixes().items():
         for fs in (None, 64):
@@ -191,7 +208,7 @@ def bounds(tier):
 
 def scenario_of(unit):
     return LossMix([Inter.from_spec(_full(d)) for d in unit['inters']], unit['fs'], unit['cut_points'], tuple(unit['kinds']),
-                   alts=('all',) if unit['bound'] > 1 else (), modes=('Q',), name=unit['name'], flavour=unit.get('flavour', 'tcp'))
+                   alts=('all',) if unit['bound'] > 1 else (), modes=('Q',), name=unit['name'], flavour=unit.get('flavour', 'tcp'), slow_sender=unit.get('slow_sender', False))
 
 
 def run_unit(unit, part):
@@ -201,7 +218,7 @@ def run_unit(unit, part):
 def scenario_from(name, params):
     return LossMix([Inter.from_spec(d) for d in params['inters']], params['fs'], params['cut_points'], tuple(params['fault_kinds']),
                    bound_faults=params.get('faults', 1), alts=tuple(params['alts']), modes=tuple(params['modes']), name=name,
-                   flavour=params.get('flavour', 'tcp'))
+                   flavour=params.get('flavour', 'tcp'), slow_sender=params.get('slow_sender', False))
 
 
 def replay(rec):
